@@ -145,11 +145,16 @@ func (p *PackageProgress) stageStreamData() error {
 		}()
 		offset, dataLen := stream.GetDataOffsetAndLen()
 		pack.Offset = offset
+		if oldLen, ok := pack.OffsetRecord[offset]; ok {
+			// 重传的分片 已经统计过的大小不能重复累加
+			pack.CurrentSize -= uint32(oldLen)
+		}
 		pack.OffsetRecord[offset] = dataLen
 		pack.OffsetDataRecord[offset] = p.historyData[headLen : headLen+bodyLen]
 		pack.CurrentSize += uint32(bodyLen)
 		if pack.CurrentSize == pack.FileSize {
 			pack.StreamHead = p.historyData[:headLen]
+			pack.StreamBody = nil
 			keys := make([]int, 0)
 			for key := range maps.Keys(pack.OffsetDataRecord) {
 				keys = append(keys, key)
